@@ -45,6 +45,21 @@ def hostShape_PacketReceiptKey : String := "[]byte(PacketReceiptPath(sourceChain
 def hostShape_CleanPacketCommitmentKey : String := "[]byte(CleanPacketCommitmentPath(sourceChain, destinationChain))"
 def hostShape_MaxAckSeqKey : String := "[]byte(MaxAckSeqPath(sourceChain, destinationChain))"
 def hostShape_NextSequenceSendKey : String := "[]byte(NextSequenceSendPath(sourceChain, destChain))"
+/-- every reference to the host clock, a random source or the process environment in the state-machine packages (file:function:what) -/
+def nondetSites : List String := ["modules/tibc/light-clients/09-eth/types/algorithm.go:generateCache:time.Now",
+  "modules/tibc/light-clients/09-eth/types/algorithm.go:generateCache:time.Since",
+  "modules/tibc/light-clients/09-eth/types/algorithm.go:generateDataset:time.Now",
+  "modules/tibc/light-clients/09-eth/types/algorithm.go:generateDataset:time.Since",
+  "modules/tibc/light-clients/09-eth/types/ethash.go:memoryMapAndGenerate:math/rand.Int",
+  "modules/tibc/light-clients/09-eth/types/header.go:verifyHeader:time.Now",
+  "modules/tibc/light-clients/09-eth/types/sealer.go:Seal:crypto/rand.Int",
+  "modules/tibc/light-clients/09-eth/types/sealer.go:Seal:crypto/rand.Reader",
+  "modules/tibc/light-clients/09-eth/types/sealer.go:Seal:math/rand.New",
+  "modules/tibc/light-clients/09-eth/types/sealer.go:Seal:math/rand.NewSource",
+  "modules/tibc/light-clients/09-eth/types/sealer.go:loop:time.Now",
+  "modules/tibc/light-clients/09-eth/types/sealer.go:loop:time.Since",
+  "modules/tibc/light-clients/09-eth/types/sealer.go:submitWork:time.Now",
+  "modules/tibc/light-clients/09-eth/types/sealer.go:submitWork:time.Since"]
 def nftClassPrefix : String := "tibc-"
 def nftClassPathPrefix : String := "nft"
 def nftDelimiter : String := "/"
